@@ -275,6 +275,9 @@ func (w *world) canon(st ucon.VerifC03Step) (string, []string) {
 	}
 	out := fmt.Sprintf("%s %d", rc, inv)
 	for _, e := range evs {
+		if strings.HasPrefix(e, "evidence ") {
+			continue // staking evidence is not part of the model (C05); the oracle checks when it may appear
+		}
 		out += " | " + e
 	}
 	return out, evs
@@ -301,12 +304,12 @@ func (w *world) apply(line string) (string, error) {
 	if err != nil {
 		return "", err
 	}
-	need := map[string]int{"C": 4, "V": 15, "ES": 5, "EM": 3, "EB": 2, "EC": 1, "D": 0, "R": 0}
+	need := map[string]int{"C": 4, "V": 15, "ES": 5, "EM": 3, "EB": 2, "EC": 1, "D": 0, "R": 0, "X": 1}
 	n, ok := need[k]
 	if !ok || len(a) != n {
 		return "", fmt.Errorf("bad op %q", line)
 	}
-	if w.crashed && (k == "C" || k == "V") {
+	if w.crashed && (k == "C" || k == "V" || k == "X") {
 		return "crash 0", nil
 	}
 	switch k {
@@ -342,6 +345,13 @@ func (w *world) apply(line string) (string, error) {
 		out, evs := w.canon(st)
 		w.led.afterVote(w, a, st, evs)
 		return out, nil
+	case "X":
+		// the chain inserter refused the committed block: Server.commit calls Voter.removeMarkedBlock(hash)
+		if p := w.d.C03InsertFailed(w.hashOf(a[0])); p != "" {
+			w.crashed = true
+			return "crash 0", nil
+		}
+		return "ok 0", nil
 	case "ES":
 		if a[1] != 0 {
 			w.sel[a[0]] = &selT{votes: uint32(a[2]), kind: a[3], T: a[4]}
@@ -376,6 +386,7 @@ func (w *world) verifyCommits(st ucon.VerifC03Step) {
 	for _, ev := range st.Commits {
 		w.e2e.verify(ev)
 	}
+	w.e2e.afterDelivery(w, st)
 }
 
 func optHash(w *world, h *common.Hash) string {
@@ -471,6 +482,43 @@ func (w *world) dump() string {
 		}
 	}
 	return sb.String()
+}
+
+// existOver checks Voter.existHashOverVotesThreshold (Server.startVote's question) against the counting state read through
+// the hook: true iff the chamber and house totals of the prevotes, or of the precommits, of the current context reach the
+// two thresholds.
+func (w *world) existOver() string {
+	if w.crashed {
+		return ""
+	}
+	s := w.d.State()
+	if s.Round == nil {
+		return ""
+	}
+	dd := w.d.C03Dump()
+	ww := findWrapper(dd, s.Round.Uint64(), uint64(s.RoundIndex))
+	if ww == nil {
+		return ""
+	}
+	tot := func(k params.ValidatorKind, t ucon.VoteType) uint32 {
+		x := uint32(0)
+		for _, c := range ww.Sta[k][t].Counts {
+			x += c
+		}
+		return x
+	}
+	cPrev, hPrev := tot(params.KindChamber, ucon.Prevote), tot(params.KindHouse, ucon.Prevote)
+	cPre, hPre := tot(params.KindChamber, ucon.Precommit), tot(params.KindHouse, ucon.Precommit)
+	for _, th := range [][2]uint32{{cPrev, hPrev}, {cPrev + 1, 0}, {0, hPrev + 1}, {cPre, hPre}, {cPre + 1, hPre}, {0, 0}, {cPrev, hPre + 1}, {3, 0}} {
+		want := (cPrev >= th[0] && hPrev >= th[1]) || (cPre >= th[0] && hPre >= th[1])
+		if got := w.d.C03ExistOver(s.Round, s.RoundIndex, th[0], th[1]); got != want {
+			return fmt.Sprintf("existHashOverVotesThreshold(%d,%d) = %v, the counting state (prevotes %d/%d, precommits %d/%d) says %v", th[0], th[1], got, cPrev, hPrev, cPre, hPre, want)
+		}
+	}
+	if w.d.C03ExistOver(new(big.Int).Add(s.Round, big.NewInt(1)), s.RoundIndex, 0, 0) {
+		return "existHashOverVotesThreshold answers for a context that is not the current one"
+	}
+	return ""
 }
 
 // aliasing checks the pointer facts the value model abstracts: votesMgr is the wrapper of the current context and
